@@ -79,7 +79,7 @@ func ruleLatencyReport(r *Run) {
 		ret := r.retCanon(on, path)
 		isErr := len(ret) == 1 && ret[0] != "nil"
 		decs, stores := 0, 0
-		valueTested := false
+		valueTested, unanswered, endSet := false, false, false
 		var iterOutcome string
 		for i, ev := range path.Events {
 			if ev.Kind == EvAssign && r.P.Canon(ev.Fn, ev.Lhs[0]) == "recv.Iteration" {
@@ -92,10 +92,29 @@ func ruleLatencyReport(r *Run) {
 					decs += 100 // any other write to the round counter
 				}
 			}
+			if ev.Kind == EvAssign && len(ev.Lhs) == 1 && len(ev.Rhs) == 1 {
+				if se, ok := ast.Unparen(ev.Lhs[0]).(*ast.SelectorExpr); ok && se.Sel.Name == "End" && r.P.Canon(ev.Fn, se.X) == entry &&
+					strings.HasPrefix(r.P.Canon(ev.Fn, ev.Rhs[0]), "call:time.Now(") {
+					endSet = true
+				}
+			}
 			if ev.Kind == EvGuard && ev.Cond != nil {
-				c := r.P.Canon(ev.Fn, ev.Cond)
-				if strings.Contains(c, entry+".End") || strings.Contains(c, entry+".Start") {
-					valueTested = true
+				// "this round has not been answered yet": <entry>.End.IsZero() holds on this path
+				cx, neg := ast.Unparen(ev.Cond), false
+				for {
+					u, ok := cx.(*ast.UnaryExpr)
+					if !ok || u.Op != token.NOT {
+						break
+					}
+					cx, neg = ast.Unparen(u.X), !neg
+				}
+				if call, ok := cx.(*ast.CallExpr); ok {
+					if f, _ := calleeObj(ev.Fn.Info(), call).(*types.Func); f != nil && f.FullName() == "(time.Time).IsZero" {
+						if rx := recvExpr(call); rx != nil && r.P.Canon(ev.Fn, rx) == entry+".End" {
+							valueTested = true
+							unanswered = ev.Val != neg
+						}
+					}
 				}
 				gc := r.Classify(path, i)
 				if strings.HasPrefix(gc.Subject, "cmp:recv.Iteration>") || strings.HasPrefix(gc.Subject, "zero:recv.Iteration") {
@@ -138,7 +157,9 @@ func ruleLatencyReport(r *Run) {
 			continue
 		}
 		// an advancing path
-		r.CheckT("I4", on.Name+":answered-once", valueTested, on.Body.Pos(), path,
+		r.CheckT("I4", on.Name+":end-recorded", endSet, on.Body.Pos(), path,
+			"an accepted ping response records the round's end time (now) in the entry it stores: without it an answered round cannot be told from an outstanding one")
+		r.CheckT("I4", on.Name+":answered-once", valueTested && unanswered, on.Body.Pos(), path,
 			"the measurement advances (round counter decremented, end time stored) for any id that is present, without looking at whether that round was already answered: answering one ping twice, or replaying ids after completion, advances the measurement")
 		r.CheckT("I4", on.Name+":one-step", decs == 1 && stores == 1, on.Body.Pos(), path, "an accepted ping response counts exactly one round and stores exactly its own end time (%d, %d)", decs, stores)
 		if isErr {
